@@ -39,6 +39,19 @@ CLAIMED["C03"] = (
     "TLC/SANY; the projection (rows(), num_rows/num_cols, Cell.row/col, names) and the concretisation of value tokens; ops outside "
     "the documented domain are not generated",
     "DESIGN.md §4 C03")
+CLAIMED["C11"] = (
+    "TLC model checking of Workbook.tla (addressing: refusals, exact growth) and Addressing.tla (iterator bounds, A1 = RC); twin replay of "
+    "every TLC-generated history in row/column and A1 notation with iterator/cell probes over every bound combination, all judged by TLC "
+    "(Trace_Workbook)",
+    "Workbook.tla makes every position-taking call (write, set_cell_style/formatting/border as Touch) either a refusal (IndexError, state "
+    "unchanged) or a growth to exactly the required size, and defines iter_rows/iter_cols/cell as functions of the state; Addressing.tla "
+    "checks the code-shaped bound handling against that definition over every bound combination and that the A1 text of a position "
+    "parses back to it. All bounded histories with row/column arguments from -1 to limit+1 are replayed twice (RC and A1 text incl. 'A0'), "
+    "must coincide event by event, and each recorded trace incl. ~100-1300 read-only probes is validated by TLC; concrete limit rows/columns "
+    "(MAX-1, MAX, MAX+1) are validated with the real limits as spec constants.",
+    "TLC/SANY; abstract limits 4 are mapped to MAX_ROW_COUNT/MAX_COL_COUNT; lower-case A1 not judged; the local effect of a touch (style "
+    "name, border, formatted value at the addressed cell, no other cell changed) is observed by the driver and judged as a logged field",
+    "DESIGN.md §4 C11")
 NOT_YET = "check not built yet in this round (planned: see DESIGN.md section for this property)"
 NA = {}
 
